@@ -406,6 +406,50 @@ func ruleC18_6(c *Ctx, r *Rep) {
 					if clearAt == nil && !(dominates(clearLoop.Header, b) && !clearLoop.Blocks[b]) {
 						ok = false
 					}
+					// the clearing must be unconditional: the loop header dominates the function's exits
+					if clearAt == nil {
+						for _, ret := range returnsOf(fn) {
+							if !dominates(clearLoop.Header, ret.Block()) {
+								ok = false
+							}
+						}
+					}
+				}
+			}
+		}
+	}
+	// writes made by closures that capture the map happen when the closure is handed out: that point must come
+	// after the clearing too
+	if ok {
+		for _, a := range fn.AnonFuncs {
+			writes := false
+			for _, b := range a.Blocks {
+				for _, in := range b.Instrs {
+					if mu, isMU := in.(*ssa.MapUpdate); isMU && resolve(mu.Map) == m {
+						writes = true
+					}
+				}
+			}
+			if !writes {
+				continue
+			}
+			mc := makeClosureOf(a)
+			if mc == nil {
+				ok = false
+				continue
+			}
+			if refs := mc.Referrers(); refs != nil {
+				for _, u := range *refs {
+					ui, isInstr := u.(ssa.Instruction)
+					if !isInstr {
+						continue
+					}
+					if clearAt != nil && !instrDominates(clearAt, ui) {
+						ok = false
+					}
+					if clearAt == nil && !(dominates(clearLoop.Header, ui.Block()) && !clearLoop.Blocks[ui.Block()] && loopExitDominates(clearLoop, ui.Block())) {
+						ok = false
+					}
 				}
 			}
 		}
@@ -562,6 +606,33 @@ func ruleC19_1(c *Ctx, r *Rep) {
 			}
 		}
 	}
+	// the outcome is always reported: once the request was sent, every way out of the goroutine passes the queue send
+	var qsend ssa.Instruction
+	for _, b := range body.Blocks {
+		for _, in := range b.Instrs {
+			if sel, ok := in.(*ssa.Select); ok {
+				for _, st := range sel.States {
+					if st.Dir == 1 && st.Chan == ssa.Value(q) {
+						qsend = in
+					}
+				}
+			}
+		}
+	}
+	okReported := qsend != nil
+	if okReported {
+		for _, ret := range returnsOf(body) {
+			// the synthetic recover block (functions with defers) is not a normal way out
+			if len(ret.Block().Preds) == 0 && ret.Block() != body.Blocks[0] {
+				continue
+			}
+			if !instrDominates(qsend, ret) {
+				okReported = false
+			}
+		}
+	}
+	r.Check("C19.1", "C19.1:outcome-always-reported", body.Pos(), okReported, "every push ends with an ack or a nack on a queue",
+		"the pushing goroutine can end without reporting the push on any queue (e.g. an early return for some transport errors): the message is neither acknowledged nor nacked, so it is not pushed again after the backoff and occupies a window slot for good")
 	// the default of the status switch: false successor of the last status comparison
 	okDefault := false
 	isStatusCmp := func(b *ssa.BasicBlock) bool {
@@ -757,3 +828,5 @@ func ruleC19_5(c *Ctx, r *Rep) {
 	}
 	r.Floor("C19.5", n, 4)
 }
+
+func loopExitDominates(l *loop, b *ssa.BasicBlock) bool { return dominates(l.Header, b) }
